@@ -145,6 +145,7 @@ func checkC10(c *Ctx, r *Result, tier string) {
 	c10Queue(c, r, monIface)
 	c10HeapMapSync(c, r, fIncomplete)
 	c10PriorityWidth(c, r, monIface)
+	c10SettingFrame(c, r)
 }
 
 func c10RuleLoop(c *Ctx, r *Result, fn *ssa.Function, fAction, fFail *types.Var) {
